@@ -139,13 +139,12 @@ impl<'a, 'b, Version, Purpose> GenericBuilder<'a, 'b, Version, Purpose> {
     /// A `Result` containing the JSON payload as a `String` or a `serde_json::Error`
     /// Fixes (issue #39)[https://github.com/rrrodzilla/rusty_paseto/issues/39] reported by @xbb
     pub fn build_payload_from_claims(&mut self) -> Result<String, serde_json::Error> {
-        // Take the claims from the builder, replacing it with an empty HashMap
-        let claims = std::mem::take(&mut self.claims);
-
-        // Serialize each claim to a serde_json::Value
-        let serialized_claims: HashMap<String, Value> = claims
-            .into_iter()
-            .map(|(k, v)| (k, serde_json::to_value(v).unwrap_or(Value::Null)))
+        // Serialize each claim to a serde_json::Value; the claims stay in the builder so that
+        // building again yields the same payload
+        let serialized_claims: HashMap<String, Value> = self
+            .claims
+            .iter()
+            .map(|(k, v)| (k.clone(), serde_json::to_value(v).unwrap_or(Value::Null)))
             .collect();
 
         // Wrap the serialized claims to ensure proper nesting
